@@ -12,7 +12,8 @@
  * item I popped), or owned by some other thread ("free": its list_next is arbitrary and
  * may change at any time).
  *
- * Rely (what the other threads may do between two of my atomic steps; verif_env_step):
+ * Rely (what the other threads may do; verif_env_step runs BEFORE and, with VERIF_RG_POST_STEP, AFTER each
+ * of my atomic operations and fences, i.e. also between an operation and my next plain access):
  *   R1  the counter never decreases (no wrap-around: it stays below 2^62)
  *   R2  counter unchanged  ==>  only pushes/chains happened: the old S is a suffix of the new S
  *   R3  items owned by me are never put into S and their fields are not touched
@@ -27,6 +28,9 @@
  *   a failed CAS changes nothing; between atomic steps my plain writes leave Inv intact.
  */
 #include "verif.h"
+#ifndef VERIF_RG_POST_STEP
+#define VERIF_RG_POST_STEP   /* the environment also acts AFTER each of my atomic operations / fences */
+#endif
 #include "verif_rg.h"
 #include "parsec/class/parsec_lifo.c"
 
@@ -41,7 +45,8 @@
 #ifndef MAXFAIL
 #define MAXFAIL 2            /* bound on environment-induced CAS failures in the retry loops */
 #endif
-#define ENVK (2 * (MAXFAIL + 1) + 2)
+/* environment steps: before AND after each fence / CAS: 4 per attempt, + 2 for the final wmb of pop */
+#define ENVK (4 * (MAXFAIL + 1) + 2)
 #ifndef HLEN
 #define HLEN 3               /* length of the symbolic operation sequence of h_seq_history */
 #endif
@@ -77,7 +82,10 @@ static int     g_op;              /* operation under contract                   
 static int     g_lin;             /* my linearisation points (successful CAS)                 */
 static int     g_fail;            /* my failed CAS attempts                                   */
 static int     g_popped = -1;     /* ghost top removed at my linearisation point              */
-static int     g_seen_len = -1;   /* |S| at my last fence (the plain reads after it see that) */
+static int     g_seen_len = -1;   /* |S| right after my last fence, i.e. after the environment step that follows it:
+                                   * that is the state the plain reads behind the fence see */
+static int     g_post;            /* 0: next verif_env_step precedes my operation; 1: post step after a fence;
+                                   * 2: post step after a failed CAS; 3: post step after another own step */
 static int     g_changed;         /* did the environment act since my current attempt started */
 static uint8_t g_x;               /* item being pushed                                        */
 static uint8_t g_ring[N]; static int g_ring_k;     /* ring being chained                      */
@@ -182,16 +190,37 @@ void verif_env_step(int op, volatile void *loc)
     /* my plain (non-atomic) writes since my previous atomic step did not damage the shared chain */
     V_ASSERT(inv_ok(), "C30.lifo.guar.plain_writes_leave_shared_chain_intact");
     env_act();
-    g_pre_item = HEAD; g_pre_counter = COUNTER;
+    if (g_post) {
+        /* post step (VERIF_RG_POST_STEP): interference between my operation and my next plain access.  The ghost
+         * values captured AT my CAS (g_popped, g_lin, the guarantee obligations) were fixed in verif_own_step and
+         * are not touched here. */
+        if (g_post == 1) g_seen_len = g_len;     /* the plain reads behind the fence see this state */
+        if (g_post == 2) g_changed = 0;          /* my next attempt starts now */
+        g_post = 0;
+        return;
+    }
+    g_pre_item = HEAD; g_pre_counter = COUNTER;  /* recorded only while my step has not happened yet */
 }
 
 void verif_own_step(int op, volatile void *loc, int success)
 {
-    if (op == V_OP_FENCE) { g_seen_len = g_len; return; }
+#ifdef VERIF_RG_POST_STEP
+    g_post = 3;
+#endif
+    if (op == V_OP_FENCE) {
+        g_seen_len = g_len;
+#ifdef VERIF_RG_POST_STEP
+        g_post = 1;
+#endif
+        return;
+    }
     if (op != V_OP_CAS) return;
     if (loc != (volatile void *)&L.lifo_head && loc != (volatile void *)&L.lifo_head.data.item) return;
     if (!success) {
         g_fail++;
+#ifdef VERIF_RG_POST_STEP
+        g_post = 2;
+#endif
         V_ASSERT(HEAD == g_pre_item && COUNTER == g_pre_counter, "C30.lifo.guar.failed_cas_changes_nothing");
         if (g_op == OP_POP || g_op == OP_TRY_POP)
             V_ASSERT(g_changed, "C30.pop.guar.cas_fails_only_after_interference");
@@ -234,7 +263,7 @@ void verif_own_step(int op, volatile void *loc, int success)
 static void setup(int op, int env_on)
 {
     vin_load();
-    g_op = op; g_env_on = env_on; g_env_k = 0; g_lin = 0; g_fail = 0; g_popped = -1; g_seen_len = -1; g_changed = 0;
+    g_op = op; g_env_on = env_on; g_env_k = 0; g_lin = 0; g_fail = 0; g_popped = -1; g_seen_len = -1; g_changed = 0; g_post = 0;
     for (int i = 0; i < N; i++) g_mine[i] = 0;
     if (op == OP_PUSH) {
         V_ASSUME(vin.x < N);
